@@ -651,7 +651,12 @@ class RecordContextMatcher:
                 raise InvalidOperation("Error, only ast.Attribute or ast.Name are expected")
 
             func_name = resolve_attr_path(node)
-            if not (func_name in self.callable_names or func_name in WHITELIST):
+            if func_name is not None and func_name.partition(".")[0] in self.data:
+                # a name bound in the namespace (incl. generator variables that shadow a field type name)
+                allowed = func_name in self.callable_names
+            else:
+                allowed = func_name in WHITELIST
+            if not allowed:
                 raise InvalidOperation(
                     "Call '{}' not allowed. No calls other then whitelisted 'global' calls allowed!".format(func_name)
                 )
